@@ -100,7 +100,8 @@ const (
 	pFresh                     // allocated in this operation, unpublished
 	pAddr                      // pointer INTO storage of class
 	pVal                       // reference value whose referent storage is class
-	pStructVal                 // by-value copy of a repository struct T (class = T name)
+	pStructVal                 // by-value copy of a repository struct T (class = T name; "-f" suffixes: fields replaced by fresh values)
+	pFreshColl                 // fresh map/slice whose elements are struct copies of class
 )
 
 type prov struct {
@@ -298,6 +299,15 @@ func (in *inst) loadedFrom(c string, t types.Type) prov {
 // reference-typed fields still point at the original's referents.
 func (in *inst) structValField(class, name string, ft types.Type) prov {
 	eq := strings.HasPrefix(class, "=")
+	if !eq && strings.Contains(class, "-") {
+		parts := strings.Split(class, "-")
+		class = parts[0]
+		for _, o := range parts[1:] {
+			if o == name {
+				return prov{kind: pFresh}
+			}
+		}
+	}
 	if _, ok := ft.Underlying().(*types.Struct); ok {
 		if eq {
 			return prov{pStructVal, class}
@@ -321,7 +331,17 @@ func (in *inst) structValField(class, name string, ft types.Type) prov {
 func (in *inst) prov1(v ssa.Value) prov {
 	a := in.a
 	switch v := v.(type) {
-	case *ssa.Alloc, *ssa.MakeMap, *ssa.MakeSlice, *ssa.MakeChan, *ssa.MakeClosure:
+	case *ssa.MakeMap:
+		// a fresh map filled with by-value copies of shared structs
+		for _, ref := range *v.Referrers() {
+			if mu, ok := ref.(*ssa.MapUpdate); ok && mu.Map == v {
+				if p := in.prov(mu.Value); p.kind == pStructVal {
+					return prov{pFreshColl, p.class}
+				}
+			}
+		}
+		return prov{kind: pFresh}
+	case *ssa.Alloc, *ssa.MakeSlice, *ssa.MakeChan, *ssa.MakeClosure:
 		return prov{kind: pFresh}
 	case *ssa.Parameter:
 		for k, p := range in.fn.Params {
@@ -401,13 +421,25 @@ func (in *inst) prov1(v ssa.Value) prov {
 				}
 			}
 			if len(vals) > 0 {
-				return in.joinProv(vals)
+				p := in.joinProv(vals)
+				if st, ok := deref(al.Type()).Underlying().(*types.Struct); ok && p.kind == pStructVal && !strings.HasPrefix(p.class, "=") {
+					for f := 0; f < st.NumFields(); f++ {
+						if sv := dominatingFieldStore(al, f, v); sv != nil && in.prov(sv).kind == pFresh {
+							p.class += "-" + st.Field(f).Name()
+						}
+					}
+				}
+				return p
 			}
 		}
 		if fa, ok := v.X.(*ssa.FieldAddr); ok {
 			// field of a local that holds a by-value copy of a shared struct
 			// (e.g. a spilled value receiver)
 			if al, ok := fa.X.(*ssa.Alloc); ok {
+				if sv := dominatingFieldStore(al, fa.Field, v); sv != nil {
+					// the field of the local copy was overwritten before this load
+					return in.prov(sv)
+				}
 				if sp, ok := in.allocStruct(al); ok {
 					st, _ := deref(al.Type()).Underlying().(*types.Struct)
 					if st != nil {
@@ -436,6 +468,8 @@ func (in *inst) prov1(v ssa.Value) prov {
 		switch base.kind {
 		case pFresh:
 			return base
+		case pFreshColl:
+			return prov{pStructVal, base.class}
 		case pVal:
 			return in.loadedFrom(base.class, t)
 		}
@@ -450,6 +484,9 @@ func (in *inst) prov1(v ssa.Value) prov {
 		base := in.prov(rng.X)
 		if base.kind == pFresh {
 			return base
+		}
+		if base.kind == pFreshColl {
+			return prov{pStructVal, base.class}
 		}
 		if base.kind == pVal {
 			if m, ok := rng.X.Type().Underlying().(*types.Map); ok {
@@ -508,6 +545,45 @@ func (in *inst) prov1(v ssa.Value) prov {
 		return prov{}
 	}
 	return prov{}
+}
+
+// dominatingFieldStore: the value most recently stored into field f of the
+// local al on every path to the load ld (same block earlier, or a dominating
+// block), or nil.
+func dominatingFieldStore(al *ssa.Alloc, f int, ld *ssa.UnOp) ssa.Value {
+	idx := func(b *ssa.BasicBlock, x ssa.Instruction) int {
+		for k, in := range b.Instrs {
+			if in == x {
+				return k
+			}
+		}
+		return -1
+	}
+	var best *ssa.Store
+	for _, ref := range *al.Referrers() {
+		fa, ok := ref.(*ssa.FieldAddr)
+		if !ok || fa.Field != f {
+			continue
+		}
+		for _, r2 := range *fa.Referrers() {
+			st, ok := r2.(*ssa.Store)
+			if !ok || st.Addr != fa {
+				continue
+			}
+			sb, lb := st.Block(), ld.Block()
+			if sb == lb {
+				if idx(sb, st) < idx(lb, ld) && (best == nil || best.Block() != lb || idx(sb, best) < idx(sb, st)) {
+					best = st
+				}
+			} else if sb.Dominates(lb) && best == nil {
+				best = st
+			}
+		}
+	}
+	if best == nil {
+		return nil
+	}
+	return best.Val
 }
 
 // allocStruct: the local holds a whole by-value copy of a shared struct.
